@@ -377,6 +377,12 @@ func (r *Realm) handleAS(raw []byte) []byte {
 		}
 		return der.ETypeInfo2.MustEncode([]any{e})
 	}
+	methodData := func() []byte {
+		return der.PADataSeq.MustEncode([]any{
+			der.M{"padata-type": int64(19), "padata-value": info()},
+			der.M{"padata-type": int64(2), "padata-value": []byte{}},
+		})
+	}
 	// pre-authentication
 	var paTS []byte
 	wantsEncPARep := false
@@ -392,11 +398,7 @@ func (r *Realm) handleAS(raw []byte) []byte {
 		}
 	}
 	if paTS == nil && r.Policy.PreauthRequired {
-		md := der.PADataSeq.MustEncode([]any{
-			der.M{"padata-type": int64(19), "padata-value": info()},
-			der.M{"padata-type": int64(2), "padata-value": []byte{}},
-		})
-		return r.KRBError(ErrPreauthRequired, cnameV, crealm, snameV, md, r.Policy.OmitErrCName)
+		return r.KRBError(ErrPreauthRequired, cnameV, crealm, snameV, methodData(), r.Policy.OmitErrCName)
 	}
 	if paTS != nil {
 		ed, err := der.EncryptedData.DecodeM(paTS)
@@ -408,7 +410,7 @@ func (r *Realm) handleAS(raw []byte) []byte {
 		plain, _, err := ref.Decrypt(pet, r.Key(cl, pet).Value, 1, ed["cipher"].([]byte))
 		if err != nil {
 			seen.Problems = append(seen.Problems, fmt.Sprintf("PA-ENC-TIMESTAMP does not decrypt under the client's etype-%d key with usage 1", pet))
-			return r.KRBError(ErrPreauthFailed, cnameV, crealm, snameV, nil, r.Policy.OmitErrCName)
+			return r.KRBError(ErrPreauthFailed, cnameV, crealm, snameV, methodData(), r.Policy.OmitErrCName)
 		}
 		ts, err := decodePrefix(der.PAEncTSEnc, plain)
 		if err != nil {
@@ -556,6 +558,9 @@ func (r *Realm) handleTGS(raw []byte) []byte {
 		tkey = r.Key(r.princs[tSName], tet)
 	case tSName == "krbtgt/"+r.Name:
 		tkey = r.World.CrossKey(tRealm, r.Name, tet)
+	case tRealm == r.Name && strings.HasPrefix(tSName, "krbtgt/"):
+		// a cross-realm TGT this KDC issued itself, presented back for renewal
+		tkey = r.World.CrossKey(r.Name, strings.TrimPrefix(tSName, "krbtgt/"), tet)
 	default:
 		return fail(ErrGeneric, fmt.Sprintf("presented ticket %s@%s is not for this KDC", tSName, tRealm))
 	}
@@ -610,8 +615,8 @@ func (r *Realm) handleTGS(raw []byte) []byte {
 	opts := body["kdc-options"].([]byte)
 	tflags, _ := etp["flags"].([]byte)
 	renewReq := flagSet(opts, 30)
-	if now.After(tEnd) && !(renewReq && false) {
-		return fail(ErrTktExpired, "presented ticket has expired")
+	if now.After(tEnd) {
+		return fail(ErrTktExpired, fmt.Sprintf("presented ticket has expired %d ms ago", now.Sub(tEnd).Milliseconds()))
 	}
 	et := r.pickEType(body["etype"].([]any), func(int32) bool { return true })
 	if et == 0 {
@@ -800,4 +805,18 @@ func sortStrings(s []string) {
 			s[j], s[j-1] = s[j-1], s[j]
 		}
 	}
+}
+
+// SnapshotIssued returns a copy of the issue log.
+func (r *Realm) SnapshotIssued() []Issued {
+	r.mu.Lock()
+	defer r.mu.Unlock()
+	return append([]Issued{}, r.Issued...)
+}
+
+// SnapshotSeen returns a copy of the request log.
+func (r *Realm) SnapshotSeen() []Seen {
+	r.mu.Lock()
+	defer r.mu.Unlock()
+	return append([]Seen{}, r.Seen...)
 }
